@@ -45,7 +45,9 @@ class TriangularLattice(AbstractLattice):
                 ids = np.roll(idx, s, axis=d)
                 if self.pbc[d]:
                     for (i, j) in zip(idx.reshape(-1), ids.reshape(-1)):
-                        adj[i, j] = 1
+                        # a periodic axis of extent 1 wraps a site onto itself
+                        if i != j:
+                            adj[i, j] = 1
                 else:
                     # single out axis `d`
                     seld = (math.prod(self.shape[:d]), self.shape[d], math.prod(self.shape[d+1:]))
@@ -66,8 +68,24 @@ class TriangularLattice(AbstractLattice):
             for s in [-1, 1]:
                 ids = np.roll(idx, s, axis=0)
                 ids = np.roll(ids, s, axis=1)
-                if self.pbc[d]:
+                if self.pbc[d] and self.pbc[d+1]:
                     for (i, j) in zip(idx.reshape(-1), ids.reshape(-1)):
+                        if i != j:
+                            adj[i, j] = 1
+                elif self.pbc[d]:
+                    # axis `d+1` is open: single it out and cut the links wrapping around it
+                    seld = (math.prod(self.shape[:d+1]), self.shape[d+1], math.prod(self.shape[d+2:]))
+                    idx_cut = idx.reshape(seld)
+                    ids_cut = ids.reshape(seld)
+                    if s == 1:
+                        idx_cut = idx_cut[:, 1:, :]
+                        ids_cut = ids_cut[:, 1:, :]
+                    elif s == -1:
+                        idx_cut = idx_cut[:, :-1, :]
+                        ids_cut = ids_cut[:, :-1, :]
+                    else:
+                        assert False
+                    for (i, j) in zip(idx_cut.reshape(-1), ids_cut.reshape(-1)):
                         adj[i, j] = 1
                 else:
                     if self.pbc[d+1]:
